@@ -23,7 +23,7 @@ BOUNDS = {"e2e": "<=3 methods, all iteration orders of the candidate set"}
 def tasks(tier):
     from contracts import mro_c
 
-    t = _tm.sort_types_tasks() + _tm.typemap_tasks()[1:2] + _tm.mro_unbounded_tasks()
+    t = _tm.sort_types_tasks() + _tm.typemap_tasks()[1:2] + _tm.mro_unbounded_tasks() + _tm.resolve_unbounded_tasks()
     # the mirror-symmetry premise of sort_types/order_free on the class / generic fragment (shared with C12)
     t += [_tm.T("typeorder/class_fragment", mro_c.t_class_fragment)]
     t += [_tm.T(f"typeorder/mirror[{a},{b}]/outside", mro_c.t_mirror(a, b, "outside")) for a, b in (("Class", "Class"), ("Class", "Alias"), ("Class", "Strict"), ("Class", "HasMethod"), ("Class", "ClassCheck"))]
@@ -31,6 +31,7 @@ def tasks(tier):
     for a, b in (("Class", "Equals"), ("Class", "FuncDep"), ("Equals", "Equals"), ("Equals", "FuncDep"), ("FuncDep", "FuncDep")):
         both = a in mro_c.TROUBLE and b in mro_c.TROUBLE
         t += [_tm.T(f"typeorder/mirror[{a},{b}]/{'relative' if both else 'outside'}", mro_c.t_mirror(a, b, "relative" if both else "outside", unfold=1), mode="U")]
+    t += [_tm.T("FuncDependentType.__lt__/wildcards", mro_c.t_funcdep_lt)]
     t += _tm.e2e_tasks(["complete", "sound_chain"], tier, perm=True)
     t += [
         _tm.T("frames.determinism", __import__("pyvc.frames", fromlist=["frame_task"]).frame_task("frames.determinism", [
